@@ -166,3 +166,41 @@ def arm_kinds(ps, all_kinds, with_implied=False):
     if with_implied:
         return kinds, implied
     return kinds
+
+
+def main_loop_err_arm(vm):
+    """The Err arm of the match on the opcode's execute result in the main loop (or None)."""
+    root = vm.main_loop["hir"]["value"]
+    en, eps = vm.exec_call
+    res_local = None
+    for anc, key in reversed(eps):
+        if anc.get("s") == "Let" and key == "init" and anc["pat"].get("p") == "Bind":
+            res_local = anc["pat"]["local"]
+            break
+    for m, ps in F.exprs(root, "Match"):
+        sc = m["scrut"]
+        if (res_local is not None and F.local_of(sc) == res_local) or any(x is en for x, _ in F.walk(sc)):
+            for a in m["arms"]:
+                pv = F.pat_variants(a["pat"])
+                if pv and any(v == "Err" for _, v in pv):
+                    return a
+    return None
+
+
+def kills_unconditionally(body):
+    """Does the thread get killed on every path of this arm body? (kill at top level, or in every arm of an inner
+    exhaustive match)"""
+    kills = [(n, ps) for n, ps in F.calls(body) if (F.callee_def(n) or "").endswith("kill_current_thread")]
+    for n, ps in kills:
+        if not any(a.get("k") in ("If", "Match", "Loop", "Closure") for a, _ in ps):
+            return True, len(kills)
+    if kills:
+        for m, ps in F.exprs(body, "Match"):
+            if any(a.get("k") in ("If", "Loop", "Closure") for a, _ in ps):
+                continue
+            if all(
+                any((F.callee_def(c) or "").endswith("kill_current_thread") and not any(a.get("k") in ("If", "Match", "Loop", "Closure") for a, _ in cps) for c, cps in F.calls(a["body"]))
+                for a in m["arms"]
+            ):
+                return True, len(kills)
+    return False, len(kills)
